@@ -24,7 +24,7 @@ enum Fault { Delete, Truncate(usize), Field(usize, u64), Entry(usize, usize, u64
 trait Probe { fn snap(&mut self) -> (Vec<u32>, Vec<usize>); fn raw_edit(&mut self) -> bool; }
 impl Probe for BytesVec<usize, u32> {
     fn snap(&mut self) -> (Vec<u32>, Vec<usize>) { let c = self.collect(); let h = std::ops::DerefMut::deref_mut(self).holes().iter().copied().collect(); (c, h) }
-    fn raw_edit(&mut self) -> bool { let r = std::ops::DerefMut::deref_mut(self); r.update(0, 99).unwrap(); r.delete_at(1); true }
+    fn raw_edit(&mut self) -> bool { let r = std::ops::DerefMut::deref_mut(self); r.update(0, 99).unwrap(); r.update(2, 98).unwrap(); r.delete_at(1); true }
 }
 impl Probe for PcoVec<usize, u32> {
     fn snap(&mut self) -> (Vec<u32>, Vec<usize>) { (self.collect(), vec![]) }
@@ -128,7 +128,7 @@ fn one<V: StoredVec<I = usize, T = u32> + Probe>(variant: usize, target_stamp: u
 
 pub fn run() -> Report {
     let mut rep = Report { suite: "fault".into(), exhaustive: true, ..Default::default() };
-    rep.bound = "exhaustive single-file faults on a fixed 3-commit history (three variants: growing only / shrinking second commit / on raw formats an update and a deletion of stored slots before the second commit), BytesVec and PcoVec, with and without re-import before rolling back: each of the 3 change records deleted, truncated at every byte offset, and every length field (prev_stored_len, stored_len, truncated count, prev_pushed length, pushed length, and on raw formats the modified and previous-holes counts) overwritten with 2^32, 2^63-1, 2^63, u64::MAX, and the first two modified-slot and previous-hole indices overwritten with 7, 2^32, u64::MAX-1, u64::MAX; then rollback step by step, comparing contents and deleted slots".into();
+    rep.bound = "exhaustive single-file faults on a fixed 3-commit history (three variants: growing only / shrinking second commit / on raw formats two updates and a deletion of stored slots before the second commit), BytesVec and PcoVec, with and without re-import before rolling back: each of the 3 change records deleted, truncated at every byte offset, and every length field (prev_stored_len, stored_len, truncated count, prev_pushed length, pushed length, and on raw formats the modified and previous-holes counts) overwritten with 2^32, 2^63-1, 2^63, u64::MAX, and the first two modified-slot and previous-hole indices overwritten with 7, 2^32, u64::MAX-1, u64::MAX; then rollback step by step, comparing contents and deleted slots".into();
     let mut faults: Vec<Fault> = vec![Fault::Delete];
     for n in 0..200 { faults.push(Fault::Truncate(n)); }
     for k in 0..7 { for val in [1u64 << 32, (1u64 << 63) - 1, 1u64 << 63, u64::MAX] { faults.push(Fault::Field(k, val)); } }
